@@ -29,6 +29,7 @@ pub fn replay(args: &HashMap<String, String>) {
     };
     let do_step = prop == "C06" || prop == "both";
     let do_opt = prop == "C04" || prop == "both";
+    let do_post = prop == "C02";
     // rule-level model of the optimiser (ClassicOpt.tla): what it answers for each enumerated term
     let mut model_opt: HashMap<String, Value> = HashMap::new();
     if do_opt && !args.contains_key("ndjson") {
@@ -40,7 +41,7 @@ pub fn replay(args: &HashMap<String, String>) {
     let jobs: Vec<Value> = vectors
         .iter()
         .map(|v| {
-            let mut j = json!({"op": "clvm", "prog": v["prog"], "env": v["env"], "opt": do_opt});
+            let mut j = json!({"op": "clvm", "prog": v["prog"], "env": v["env"], "opt": do_opt, "postopt": do_post});
             if do_step {
                 j["spellings"] = json!(SPELLINGS);
             }
@@ -134,6 +135,22 @@ pub fn replay(args: &HashMap<String, String>) {
                             "consensus": cons.to_json(), "optimized": o["out"], "optimized_text": outv.show(),
                             "optimized_result": res.to_json_msg()}));
                     }
+                }
+            }
+        }
+        if do_post {
+            // the cl23+ post-codegen rewrites on an arbitrary CLVM term: where the term returns v, so does the rewritten one
+            let o = &r["postopt"];
+            if o.get("changed").and_then(|b| b.as_bool()).unwrap_or(false) {
+                rep.count("postopt_changed");
+                rep.nontrivial(&format!("{}|{}", v["prog"], v["env"]));
+            }
+            if let Outcome::Ok(want) = &cons {
+                rep.count("postopt_antecedent_holds");
+                let good = o.get("res").and_then(|x| Outcome::from_json(x).ok()).map(|res| matches!(&res, Outcome::Ok(got) if got == want)).unwrap_or(false);
+                if !good {
+                    rep.violation(json!({"property": "C02", "kind": "post-codegen-rewrite-changes-value", "case": case, "consensus": cons.to_json(),
+                        "rewritten_text": o.get("out").and_then(|x| V::from_json(x).ok()).map(|x| x.show()), "rewritten_result": o.get("res"), "observed": o}));
                 }
             }
         }
